@@ -251,9 +251,9 @@ func check(it *proto.Item, r *proto.Result) []proto.Issue {
 var F = &proto.Family{ID: "C02", Gen: gen, Check: check,
 	Bound: func(tier string) int {
 		if tier == "thorough" {
-			return 2
+			return 3
 		}
-		return 1
+		return 2
 	}}
 
 func init() {
